@@ -276,6 +276,8 @@ def mutate_frames(ch, frames, start=0):
             blk = adversarial_block(ch)
             if t in (wire.HEADERS, wire.CONTINUATION):
                 fr[i] = wire.raw(t, flags & ~(wire.F_PADDED | wire.F_PRIORITY), sid, blk)
+            elif t == wire.PUSH_PROMISE and len(payload) >= 4:
+                fr[i] = wire.raw(t, flags & ~wire.F_PADDED, sid, payload[:4] + blk)
             else:
                 fr.insert(i, wire.headers(ch.pick([1, 3, 5, 7, 2]), blk, ch.bool()))
     return fr, labs
@@ -298,7 +300,8 @@ def adversarial_block(ch):
     if k == 'huffman-garbage':
         return b'\x00\x83' + ch.bytes(3) + b'\x81' + ch.bytes(1)
     if k == 'empty-name':
-        return raw_block([(b':status', b'200'), (b'', b'v')])
+        return ch.pick([raw_block([(b':status', b'200'), (b'', b'v')]), raw_block([(b'', b'v')] + REQ),
+                        raw_block(REQ[:2] + [(b'', b'')] + REQ[2:]), raw_block([(b'', b'')])])
     if k == 'non-utf8':
         return raw_block([(b':status', b'200'), (b'x-\xff', b'\x80\xfe')])
     if k == 'table-size-big':
